@@ -376,7 +376,12 @@ theorem recoverWal_cap (m0 : Mem) (ft : Nat) (w : Within m0.frames m0.payloadEnd
       simp only [hf, Bool.false_eq_true, if_false] at p
       -- whatever bookkeeping wraps the rebuilt / flushed handle (sketch persist, footer, checkpoint) touches
       -- none of the four fields: the goals are definitionally about the `if … then rebuild else flush` handle
-      have hX := rebuildOrFlush_keeps ma δ ft
+      have hE : Keeps (ma.enableVecForEmbs δ.embs) ma := by
+        unfold Mem.enableVecForEmbs
+        split
+        · exact ⟨rfl, rfl, rfl, rfl⟩
+        · exact Keeps.refl ma
+      have hX := (rebuildOrFlush_keeps (ma.enableVecForEmbs δ.embs) δ ft).trans hE
       refine ⟨?_, ?_, ?_, ?_, rfl⟩
       · exact Nat.le_trans (Nat.le_of_eq hX.pe) p
       · exact hX.within w1
